@@ -420,15 +420,15 @@ func (a *Act) havocPlace(st *State, m *Clause, env *SpecEnv) {
 			dk, ds, vk, vs, ks, vsrt := a.mapHeaps(st, u)
 			D := vc.getHeap(st, dk, ds)
 			V := vc.getHeap(st, vk, vs)
-			L := vc.getHeap(st, "ML", "(Array Int Int)")
+			L := vc.getHeap(st, a.mlKey(u), "(Array Int Int)")
 			vc.setHeap(st, dk, ds, store(D, v.S, vc.fresh("hdom", "(Array "+ks+" Bool)")))
 			vc.setHeap(st, vk, vs, store(V, v.S, vc.fresh("hval", "(Array "+ks+" "+vsrt+")")))
 			nl := vc.fresh("hlen", sInt)
 			vc.assume("true", "(>= "+nl+" 0)")
-			vc.setHeap(st, "ML", "(Array Int Int)", store(L, v.S, nl))
+			vc.setHeap(st, a.mlKey(u), "(Array Int Int)", store(L, v.S, nl))
 			a.logHeapAt(dk, v.S)
 			a.logHeapAt(vk, v.S)
-			a.logHeapAt("ML", v.S)
+			a.logHeapAt(a.mlKey(u), v.S)
 		case *types.Slice:
 			a.havocRegion(st, "(sl_arr "+v.S+")", u.Elem())
 		default:
@@ -562,7 +562,11 @@ func (a *Act) doReturn(st *State, vals []Val, pos token.Pos, ri *ssa.Return) {
 	for _, c := range a.con.Represents {
 		a.establishRepresents(st, c, env)
 	}
-	for i, c := range a.con.Ensures {
+	ens := a.con.Ensures
+	if a.ifaceCon != nil {
+		ens = append(append([]*Clause(nil), a.ifaceCon.Ensures...), ens...)
+	}
+	for i, c := range ens {
 		label := c.Label
 		if label == "" {
 			label = fmt.Sprint(i + 1)
@@ -575,7 +579,7 @@ func (a *Act) doReturn(st *State, vals []Val, pos token.Pos, ri *ssa.Return) {
 		if len(c.Props) > 0 {
 			props = c.Props
 		}
-		v, err := env.evalBool(c.Expr)
+		v, err := a.clauseEnv(env, c).evalBool(c.Expr)
 		if err != nil {
 			vc.oblige(name, "post", props, c.Line, st.guard, "false", "contract error: "+err.Error()+" in: "+c.Text)
 			continue
@@ -724,7 +728,11 @@ func (a *Act) frameAllowed() (map[string][]string, map[string]bool, bool) {
 	a.frameMemo = fi
 	pre := a.specEnv(a.entry)
 	pre.old = a.entry
-	for _, m := range a.con.Modifies {
+	mods := a.con.Modifies
+	if a.ifaceCon != nil {
+		mods = append(append([]*Clause(nil), mods...), a.ifaceCon.Modifies...)
+	}
+	for _, m := range mods {
 		if m.Text == "nothing" {
 			continue
 		}
@@ -741,7 +749,7 @@ func (a *Act) frameAllowed() (map[string][]string, map[string]bool, bool) {
 					panic(r)
 				}
 			}()
-			a.placeKeys(m, pre, fi.allowed, fi.anyKey)
+			a.placeKeys(m, a.clauseEnv(pre, m), fi.allowed, fi.anyKey)
 		}()
 	}
 	return fi.allowed, fi.anyKey, fi.whole
@@ -783,7 +791,7 @@ func (a *Act) placeKeys(m *Clause, env *SpecEnv, allowed map[string][]string, an
 			dk, _, vk, _, _, _ := a.mapHeaps(env.st, u)
 			allowed[dk] = append(allowed[dk], v.S)
 			allowed[vk] = append(allowed[vk], v.S)
-			allowed["ML"] = append(allowed["ML"], v.S)
+			allowed[a.mlKey(u)] = append(allowed[a.mlKey(u)], v.S)
 		case *types.Slice:
 			// element region: approximate by allowing the whole key (checked by base in callers)
 			var collect func(t types.Type)
